@@ -10,6 +10,7 @@
 (* kind (interpreted by the harness):                                      *)
 (*   num    : 0, 1, actual-1, actual+1, max-1, max, sign bit, 2x, 1/2      *)
 (*   xmlnum : 0, 1, -1, +1, 2^31-1, 2^32-1, 2^32, 2^64, "-1", "", "abc"    *)
+(*            3000000 (a valid count far beyond what the file holds)        *)
 (*   xmlref : A0, XFE1, A1048577, A, 1, ZZZZZZZZZZ1, "A1:", A99999999999, "",*)
 (*            C9:A1, A9:C1 (a range whose end lies before its start)          *)
 (*            A1:Z100000, B2:B9000000 (valid, declaring millions of cells)   *)
